@@ -120,8 +120,9 @@ func (interp *Interpreter) CompileAST(n ast.Node) (*Program, error) {
 	}
 	interp.mutex.Unlock()
 
-	// Add main to list of functions to run, after all inits.
-	if m := gs.sym[mainID]; pkgName == mainID && m != nil {
+	// Add main to list of functions to run, after all inits, if it is declared in this program:
+	// a main function defined by a previous evaluation has already run.
+	if m := gs.sym[mainID]; pkgName == mainID && m != nil && m.node.hasAnc(root) {
 		initNodes = append(initNodes, m.node)
 	}
 
